@@ -35,7 +35,7 @@ type c06Case struct {
 	ListCut int         `json:"listcut"` // verify against list[:N-ListCut]
 }
 
-var c06Kinds = []string{"bodyflip", "swap", "dup", "reindex", "outsider", "recid", "zero-r", "zero-s", "sigflip", "index-eq-len", "index-255", "unsorted-rotate"}
+var c06Kinds = []string{"seq+1", "nonce+1", "ts+1", "emitter-flip", "chain+1", "cl+1", "bodyflip", "swap", "dup", "reindex", "outsider", "recid", "zero-r", "zero-s", "sigflip", "index-eq-len", "index-255", "unsorted-rotate"}
 
 func genC06(t *rapid.T) c06Case {
 	c := c06Case{}
@@ -120,6 +120,22 @@ func runC06(c c06Case) (*vh.Violation, vh.Outcome) {
 			p := append([]byte{}, body.Payload...)
 			p[a%len(p)] ^= byte(1 << (uint(b) % 8))
 			verifyBody.Payload = p
+		case "seq+1":
+			verifyBody.Sequence++
+		case "nonce+1":
+			verifyBody.Nonce++
+		case "ts+1":
+			verifyBody.Timestamp++
+		case "emitter-flip":
+			verifyBody.Emitter[a%32] ^= byte(1 << (uint(b) % 8))
+		case "chain+1":
+			if a%2 == 0 {
+				verifyBody.EmitterChain++
+			} else {
+				verifyBody.TargetChain++
+			}
+		case "cl+1":
+			verifyBody.CL++
 		case "swap":
 			if len(ws) >= 2 {
 				i, j := a%len(ws), b%len(ws)
@@ -184,13 +200,31 @@ func runC06(c c06Case) (*vh.Violation, vh.Outcome) {
 	}
 	o.NonTrivial = len(ws) >= 4 || repeats || c.Corr != nil
 
-	v := &VAA{Version: 1, Timestamp: time.Unix(int64(verifyBody.Timestamp), 0), Nonce: verifyBody.Nonce, Sequence: verifyBody.Sequence, ConsistencyLevel: verifyBody.CL,
-		EmitterChain: ChainID(verifyBody.EmitterChain), TargetChain: ChainID(verifyBody.TargetChain), EmitterAddress: Address(verifyBody.Emitter), Payload: verifyBody.Payload}
+	// The VAA object is first built with the *original* body and verified once (any memoised state is
+	// primed), then its body fields are changed in place to the corrupted body and it is verified again.
+	v := &VAA{Version: 1, Timestamp: time.Unix(int64(body.Timestamp), 0), Nonce: body.Nonce, Sequence: body.Sequence, ConsistencyLevel: body.CL,
+		EmitterChain: ChainID(body.EmitterChain), TargetChain: ChainID(body.TargetChain), EmitterAddress: Address(body.Emitter), Payload: append([]byte{}, body.Payload...)}
 	var rs []vh.RefSig
 	for _, x := range ws {
 		v.Signatures = append(v.Signatures, &Signature{Index: x.idx, Signature: SignatureData(x.sig)})
 		rs = append(rs, vh.RefSig{Index: x.idx, Sig: x.sig})
 	}
+	{
+		ref0 := vh.RefVerifySigs(digest, rs, use, false)
+		got0, perr := callVerify(v, use)
+		if perr != nil {
+			return vh.V("C06/panic", "VerifySignatures panicked: %v", perr), o
+		}
+		if got0 != (ref0 == nil) {
+			if got0 {
+				return vh.V("C06/accepts-invalid", "VerifySignatures accepted although: %v (n=%d, %d sigs)", ref0, len(use), len(ws)), o
+			}
+			return vh.V("C06/rejects-valid", "VerifySignatures rejected a valid, ordered, in-set signature list (n=%d, %d sigs)", len(use), len(ws)), o
+		}
+		_ = v.SigningMsg()
+	}
+	v.Timestamp, v.Nonce, v.Sequence, v.ConsistencyLevel = time.Unix(int64(verifyBody.Timestamp), 0), verifyBody.Nonce, verifyBody.Sequence, verifyBody.CL
+	v.EmitterChain, v.TargetChain, v.EmitterAddress, v.Payload = ChainID(verifyBody.EmitterChain), ChainID(verifyBody.TargetChain), Address(verifyBody.Emitter), verifyBody.Payload
 	refErr := vh.RefVerifySigs(vh.RefDigest(vh.RefBody(verifyBody)), rs, use, false)
 	got, perr := callVerify(v, use)
 	if perr != nil {
